@@ -270,6 +270,7 @@ inline Vector<double> makeVectorUnscaled(const PolarGrid& grid, int kind, uint64
 struct GridOpts {
     int nr_min = 4, nr_max = 24, nt_min = 4, nt_max = 32;
     bool coarsenable = false; // nr odd, ntheta % 4 == 0 (ntheta >= 8)
+    bool extreme_units = false; // also: Rmax of 1e4..1e7 (other length units) and holes of 1e-12..1e-14 Rmax
     bool nt_mult4    = false; // ntheta % 4 == 0
     int min_circles = 0, min_radial = 0; // constraints for explicit splits
     bool allow_explicit_split = true;
@@ -305,7 +306,22 @@ inline ProblemSpec genProblem(const GridOpts& go)
     p.Rmax = rpick({1.3, 1.0, 0.5, 2.0});
     if (rint(0, 3) == 0)
         p.Rmax = runi(0.5, 2.0);
-    const double R0 = p.Rmax * genR0overRmax();
+    double R0 = p.Rmax * genR0overRmax();
+    if (go.extreme_units) {
+        // nothing in the operator's definition refers to a unit of length or to a smallest hole; the code's equals() helper
+        // does (an absolute 2.2e-13), so quantities of that size are put in front of it
+        switch (rweighted({8, 1, 1})) {
+        case 1:
+            p.Rmax *= std::pow(10.0, rpick({4, 6, 7}));
+            R0 = p.Rmax * genR0overRmax();
+            break;
+        case 2:
+            R0 = p.Rmax * rpick({1e-12, 1e-14});
+            break;
+        default:
+            break;
+        }
+    }
     int rcls        = rint(0, 3);
     if (rcls == 3 && nr % 2 == 0)
         rcls = 2;
